@@ -65,6 +65,30 @@ CLAIMED = {
   text="Fork schedules are sampled (epochs 0, equal, adjacent, far apart, never activated for altair..fulu; SLOTS_PER_EPOCH in {1,4,8,32}; random versions and genesis validators roots) and queried on both sides of every boundary: Spec.ForkVersion, ForkDecoder.ForkDigest, BlockAllocator, block->Envelope->block identity, VerifySignature must accept the slot's version and refuse each of the six others and another proposer index. Chains are advanced slot by slot across all four upgrades and the state's type and fork record must name the slot's fork. The finite sub-space of built-in constants (mainnet, minimal, spec-level: ~300 values) is enumerated completely against the pinned v1.5.0-beta.2 table. Found and repaired Spec.ForkVersion being shifted by one fork from Capella on.",
   note="Trusted: the pinned constants table (reviewed in the design round; a constant wrong today and misremembered identically is not detected), refspec/refssz, the BLS library. BlockAllocator judged up to electra (no fulu block type exists). Block values use MAX_VALIDATORS_PER_COMMITTEE=17 to stay clear of the ztyp full-bitlist decoding issue (C04's subject).",
   ref="§3 C14"),
+ "C18": dict(
+  technique="fault enumeration inside property-based chain generation (rapid): every context poll of every ProcessSlots/StateTransition step cancelled once (sticky and site-local modes), every engine-call verdict combination {valid,invalid,error} per payload block, with a scripted engine that records what it is shown",
+  level="fault_enumeration",
+  text="For each step of generated chains (all five forks, custom presets) the number N of ctx.Err() polls is measured with a counting context and the step is re-run from a fresh copy once per poll k in 1..N, in two modes: cancelled from poll k on, and cancellation visible only to the polling function of poll k (so a swallowed cancellation cannot hide behind a later poll); every run must return an error. For every payload-carrying block the full product of engine verdicts (9 for bellatrix/capella, 27 for deneb) is run: anything but all-valid must give an error and leave latest_execution_payload_header unchanged; all-valid must reproduce the reference post-state, and the recording engine must have been shown the body's payload bytes, the versioned hashes 0x01||sha256(commitment)[1:] in order and the block's parent root. Within each explored step the fault space (single cancellation point; one verdict per engine call) is enumerated completely; steps themselves are sampled.",
+  note="Cancellation between two polls is indistinguishable from cancellation at the next poll; work after the last poll cannot be interrupted by construction. The site-local mode relies on every poll having the form `if err := ctx.Err(); err != nil { return err }` or re-reading ctx.Err() within the same function. Steps whose undisturbed run already diverges from the reference end the case without a verdict.",
+  ref="§3 C18"),
+ "C09": dict(
+  technique="model-based stateful property testing (rapid): generated histories of 10-80 fork-choice calls replayed in lock-step on ProtoForkChoice and on fcmodel, a from-scratch recursive LMD-GHOST over an explicit (root,slot) tree; every Head/FindHead result and every vote's ok compared; directed class tour first; shrunk failures become JSON replays",
+  level="exploration",
+  text="20 000 (quick) / 600 000 (thorough) random histories per seed plus directed templates and regression replays agree with the model (<=40 nodes, <=12 validators, SLOTS_PER_EPOCH=4, hashed small-integer roots, tie-prone balances). About one third are non-trivial: >=2 live forks, >=3 accepted votes, >=1 vote moved. Ties broken by root, votes moved between branches, skipped non-viable heavier branches and gap-slot heads occur at every seed. Six realistic mutants of weight, tie-break, best-descendant and viability bookkeeping are caught in the quick tier; three genuine defects were found and repaired.",
+  note="Trusted base: fcmodel (DESIGN Appendix A reading: fork-choice parent = parent root's first node; leads = any viable node in the subtree; epoch 0 matches everything) plus the executor. Histories are bounded and sampled. ProcessSlot keeps its known-parent precondition; pruned roots are never re-inserted; votes are compared at batch-application points.",
+  ref="§3 C09, Appendix A"),
+ "C10": dict(
+  technique="model-based stateful property testing (rapid) with scripted fault injection on the prune sink: histories with ~17% UpdateJustified ops (ahead/equal/behind/unknown/conflicting pairs; block-node and gap-slot anchors; pinned or not), sink accepting all / failing at the k-th report / nil; every call watchdog-bounded and re-confirmed; full query sweep after each prune",
+  level="exploration",
+  text="10 000 (quick) / 200 000 (thorough) histories per seed plus 7 directed templates and 9 regression replays: the error verdict, the sink reports against the model's prune set (each once, correct canonical flag, nothing after a sink error), the getters and the node set are checked after each update, then every query kind is swept over retained, pruned and never-inserted roots, and later blocks, votes and heads are checked as in C09. ~27% of histories contain a finalization advance removing >=2 nodes followed by >=3 ops. Seven mutants caught in the quick tier; nine genuine defects (self-deadlock, swapped arguments, wrong prune set and flags, stale indices) found and repaired.",
+  note="Trusts fcmodel.PlanUpdate/CommitUpdate (refusal rules as written in forkchoice.go; canonical = transition ancestor of the new finalized node; no prune when the checkpoint node is absent). 'Does not block' means returns within 10 s, twice: termination is observed, not proved. One scripted sink failure per history.",
+  ref="§3 C10, Appendix A"),
+ "C11": dict(
+  technique="model-based stateful property testing (rapid): insertion histories with ~45% query ops plus a closing sweep, compared with direct walks of the model tree (CanonicalChain, InSubtree, ClosestToSlot, CanonAtSlot with/without block, GetSlot, Search by heads/parent/slot with the canonical split); node set compared after every insertion, before and after prunes",
+  level="exploration",
+  text="10 000 (quick) / 200 000 (thorough) histories per seed, each ending in hundreds of swept queries over known, pruned and never-inserted roots and slots from before the anchor to after the head, plus directed templates and regression replays; ~1 850 / 2 800 distinct (query kind, argument-relation class, pre/post-prune, tree shape) keys; 23 mandatory classes hold at every seed. Eight mutants caught in the quick tier (one planned mutant is equivalent on the repaired tree); six genuine defects found and repaired.",
+  note="Trusts fcmodel's query functions and the doc readings written next to them (first-node semantics for InSubtree and CanonAtSlot; heads = blocks without a child block; Search compared as sets). Canonical-dependent queries are asked after a head flush because votes are batched. Trees <=40 nodes.",
+  ref="§3 C11, Appendix A"),
 }
 PENDING_REASON = "check not built yet in this session (designed in DESIGN.md §3; will be claimed when its machinery is committed)"
 
